@@ -4,7 +4,7 @@
 #   /tmp/sb/verif = copy of /verif's working tree (without build output, out/, evidence/)
 # Mutants are applied to /tmp/sb/repo and checked with /tmp/sb/verif/check, so /repo itself and
 # /verif/evidence stay untouched. Remove with: tools/sandbox.sh --remove
-SB=/tmp/sb
+SB=${SB_DIR:-/tmp/sb}
 if [ "$1" = "--remove" ]; then
   git -C /repo worktree remove --force $SB/repo 2>/dev/null; rm -rf $SB; git -C /repo worktree prune; exit 0
 fi
